@@ -548,6 +548,12 @@ def c12(tier):
     }
     for k, (files, start) in failing.items():
         inputs.append((f"failing:{k}", files, start))
+    # an import without schemaLocation, and several siblings that declare the imported namespace: whatever the reader does with
+    # them (nothing, today), it must not depend on hashing or registration order
+    cand = lambda tag: A(f'<xs:complexType name="Cand{tag}"><xs:sequence><xs:element name="v" type="xs:int"/></xs:sequence></xs:complexType>', tns="http://zv.test/b")   # noqa: E731
+    inputs.append(("locationless-import-with-candidate-siblings",
+                   {"a.xsd": A('<xs:import namespace="http://zv.test/b"/>' + good), "b1.xsd": cand("One"), "b2.xsd": cand("Two"), "b3.xsd": cand("Three"),
+                    "b4.xsd": cand("Four")}, "a.xsd"))
     rejected_checked = 0
     n_proc = 8 if tier == "quick" else 32
     scratchdir = common.scratch("c12")
